@@ -3,6 +3,8 @@
      parse_sections                     (section_engine.py, the views files)
    and of the try/except fall-through of merchant_utils.get_all_rules / get_transforms and the
    views branch of config_loader.load_config.
+   The model describes the tree AFTER the three C17 fixes (content before the first header is an error;
+   top-level expressions are validated; a load error is reported on stderr).
 
    Input: the list of lines, i.e. what Python's text.split('\n') yields (no line contains LF;
    a CRLF file shows up as lines ending in CR, which strip() removes).
@@ -235,6 +237,7 @@ Inductive ekind :=
   (* merchants *)
   | EEmptyName | EBadLet | EBadField | EBadPriority | EUnknownProperty | EUnexpected
   | EMissingMatch | ENoCategoryOrTags | EInvalidLet | EInvalidField | EInvalidMatch
+  | EOutside | EInvalidTop      (* before the first header: not an assignment / invalid right-hand side *)
   (* views *)
   | VFilterOutside | VDescOutside | VInvalidFilter | VInvalidVar | VUnexpected | VMissingFilter.
 
@@ -355,22 +358,26 @@ Section WithParser.
     if is_empty name then Err n0 EEmptyName
     else bind (foldM apply_prop props prule0) (finish_rule n0 name).
 
-  (* lines before the first header: name = expr / field.x = expr; ANYTHING ELSE IS PASSED OVER *)
+  (* lines before the first header: name = expr / field.x = expr, the right-hand side validated like every
+     other expression; anything else is an error at that line (since the fixes "content before the first
+     [Rule] header is an error" and "top-level expressions are validated") *)
   Definition pre_step (st : dict string * list (string * string)) (ln : nat * string)
-    : dict string * list (string * string) :=
+    : res (dict string * list (string * string)) :=
     let (vars, tr) := st in
     match asg_of (snd ln) with
     | Some (lhs, rhs) =>
-        if String.prefix "field." lhs then (vars, (tr ++ [(lhs, rhs)])%list)
-        else (dset vars (lower lhs) rhs, tr)
-    | None => (vars, tr)
+        if pyparse rhs then
+          if String.prefix "field." lhs then Ok (vars, (tr ++ [(lhs, rhs)])%list)
+          else Ok (dset vars (lower lhs) rhs, tr)
+        else Err (fst ln) EInvalidTop
+    | None => Err (fst ln) EOutside
     end.
 
   Definition parse_m_numbered (nl : list (nat * string)) : res mfile :=
     let (pre, secs) := group (map (fun p => (fst p, classify_m (snd p))) nl) in
-    let (vars, tr) := fold_left pre_step pre ([], []) in
-    bind (mapM build_rule secs) (fun rules =>
-      Ok {| m_rules := rules; m_vars := vars; m_transforms := tr |}).
+    bind (foldM pre_step pre ([], [])) (fun vt =>
+      bind (mapM build_rule secs) (fun rules =>
+        Ok {| m_rules := rules; m_vars := fst vt; m_transforms := snd vt |})).
 
   Definition parse_merchants (lines : list string) : res mfile := parse_m_numbered (number 1 lines).
 
@@ -447,32 +454,40 @@ Section WithParser.
   (* ---------------------------------------------------------------------------------------- *)
   (* command level: merchant_utils.get_all_rules / get_transforms, config_loader (views)         *)
 
-  (* What the caller of the loader can observe. *)
-  Inductive load_report :=
-    | Loaded (names : list string)        (* a rule list is returned, nothing else *)
-    | Reported (line : nat).              (* an error reaches the caller (exception / warning entry) *)
+  (* What the caller of a loader can observe: the value returned, and whether an error message naming a line
+     reached the user (stderr: merchant_utils._report_rules_load_error; for views the warning entry that
+     `tally up` prints). *)
+  Record load_result (A : Type) := { lr_value : A; lr_reported : option nat }.
+  Arguments lr_value {A} _.
+  Arguments lr_reported {A} _.
 
   (* get_all_rules for a path ending in .rules:
        try:    engine = load_merchants_file(path); ...; return rules
-       except Exception: pass           # fall through
-       user_rules = load_merchant_rules(path)   # the same file read as CSV
+       except Exception as e: _report_rules_load_error(path, e)    # then fall through
+       user_rules = load_merchant_rules(path)                        # the same file read as CSV
      [csv_rules] stands for load_merchant_rules (csv.DictReader; outside this model). *)
   Variable csv_rules : list string -> list string.
 
-  Definition get_all_rules (lines : list string) : load_report :=
+  Definition get_all_rules (lines : list string) : load_result (list string) :=
     match parse_merchants lines with
-    | Ok f => Loaded (map r_name (m_rules f))
-    | Err _ _ => Loaded (csv_rules lines)
+    | Ok f => {| lr_value := map r_name (m_rules f); lr_reported := None |}
+    | Err n _ => {| lr_value := csv_rules lines; lr_reported := Some n |}
     end.
 
-  (* get_transforms: try … return engine.transforms  except Exception: return [] *)
-  Definition get_transforms (lines : list string) : list (string * string) :=
-    match parse_merchants lines with Ok f => m_transforms f | Err _ _ => [] end.
+  (* get_transforms: try … return engine.transforms  except Exception as e: report; return [] *)
+  Definition get_transforms (lines : list string) : load_result (list (string * string)) :=
+    match parse_merchants lines with
+    | Ok f => {| lr_value := m_transforms f; lr_reported := None |}
+    | Err n _ => {| lr_value := []; lr_reported := Some n |}
+    end.
 
   (* load_config, views branch: except SectionParseError as e: warnings.append({'type': 'error', …}) *)
-  Definition load_views (lines : list string) : load_report :=
+  Definition load_views (lines : list string) : load_result (list string) :=
     match parse_views lines with
-    | Ok f => Loaded (map v_name (f_views f))
-    | Err n _ => Reported n
+    | Ok f => {| lr_value := map v_name (f_views f); lr_reported := None |}
+    | Err n _ => {| lr_value := []; lr_reported := Some n |}
     end.
 End WithParser.
+
+Arguments lr_value {A} _.
+Arguments lr_reported {A} _.
